@@ -54,6 +54,15 @@ pub struct Case {
     pub tokio_seed: u64,
     pub choices: Vec<u8>,
     pub pipe: PipeCfg,
+    /// idle-time-out (ms) the peer advertises in its open: the endpoint then sends heartbeats
+    #[serde(default)]
+    pub peer_idle: Option<u32>,
+    /// virtual ms the peer lets pass (reading) before it answers the endpoint's close
+    #[serde(default)]
+    pub close_answer_delay: u16,
+    /// first channel number the peer uses for its own end of sessions (the endpoint counts from 0)
+    #[serde(default)]
+    pub peer_ch0: u16,
 }
 
 fn ev() -> BoxedStrategy<Ev> {
@@ -72,8 +81,8 @@ fn ev() -> BoxedStrategy<Ev> {
 }
 
 pub fn case_strategy() -> BoxedStrategy<Case> {
-    (0u8..2, prop_oneof![Just(0u16), Just(1), Just(500)], prop_oneof![Just(0u16), Just(1), Just(500)], vec(ev(), 1..6), any::<u64>(), gen::choices_bytes(), simnet::strat::pipe_cfg())
-        .prop_map(|(role, header_delay, open_delay, script, tokio_seed, choices, pipe)| Case { role, header_delay, open_delay, script, tokio_seed, choices, pipe: PipeCfg { cap: 1 << 22, ..pipe } })
+    (0u8..2, prop_oneof![Just(0u16), Just(1), Just(500)], prop_oneof![Just(0u16), Just(1), Just(500)], vec(ev(), 1..6), any::<u64>(), gen::choices_bytes(), simnet::strat::pipe_cfg(), (prop_oneof![3 => Just(None), 1 => Just(Some(50u32)), 1 => Just(Some(400u32))], prop_oneof![3 => Just(0u16), 1 => Just(120u16), 1 => Just(1000u16)], prop_oneof![2 => Just(0u16), 1 => Just(3u16), 1 => Just(100u16)]))
+        .prop_map(|(role, header_delay, open_delay, script, tokio_seed, choices, pipe, (peer_idle, close_answer_delay, peer_ch0))| Case { role, header_delay, open_delay, script, tokio_seed, choices, pipe: PipeCfg { cap: 1 << 22, ..pipe }, peer_idle, close_answer_delay, peer_ch0 })
         .boxed()
 }
 
@@ -154,7 +163,7 @@ async fn drive<R: Send + 'static>(conn: ConnectionHandle<R>, mut peer: Peer, c: 
     let mut conn_opt: Option<ConnectionHandle<R>> = Some(conn);
     let mut closed = false;
     let mut sessions = Vec::new();
-    let mut next_peer_ch = 0u16;
+    let mut next_peer_ch = c.peer_ch0;
     let items = |peer: &Peer| -> Vec<Item> { peer.items.iter().map(|(_, i)| i.clone()).collect() };
     macro_rules! trace_ok {
         ($what:expr) => {{
@@ -190,6 +199,7 @@ async fn drive<R: Send + 'static>(conn: ConnectionHandle<R>, mut peer: Peer, c: 
             Ev::LocalClose { peer_err } => {
                 let pe = async {
                     let _c = peer.wait_for("close").await?;
+                    peer.read_until(tokio::time::Instant::now() + std::time::Duration::from_millis(c.close_answer_delay as u64)).await;
                     let err = if *peer_err { Some(Peer::error_body("amqp:resource-limit-exceeded", Some("peer says no"))) } else { None };
                     peer.send_frame(0, &Peer::close_body(err), &[]).await?;
                     Ok::<(), String>(())
@@ -225,6 +235,7 @@ async fn drive<R: Send + 'static>(conn: ConnectionHandle<R>, mut peer: Peer, c: 
                         };
                         peer.send_frame(40 + j as u16, &body, &[]).await?;
                     }
+                    peer.read_until(tokio::time::Instant::now() + std::time::Duration::from_millis(c.close_answer_delay as u64)).await;
                     peer.settle().await;
                     peer.send_frame(0, &Peer::close_body(None), &[]).await?;
                     Ok::<crate::rframe::RFrame, String>(cf)
@@ -393,7 +404,7 @@ pub async fn run_async(c: &Case) -> Result<Info, String> {
             peer.send_header(rframe::AMQP_HEADER).await?;
             let _open = peer.expect_frame("open").await?;
             tokio::time::sleep(std::time::Duration::from_millis(od as u64)).await;
-            peer.send_frame(0, &Peer::open_body("verif-peer", None, None, None), &[]).await?;
+            peer.send_frame(0, &Peer::open_body("verif-peer", None, None, c.peer_idle), &[]).await?;
             Ok::<(), String>(())
         };
         let (conn, po) = tokio::join!(open_fut, po);
@@ -408,7 +419,7 @@ pub async fn run_async(c: &Case) -> Result<Info, String> {
             tokio::time::sleep(std::time::Duration::from_millis(hd as u64)).await;
             peer.send_header(rframe::AMQP_HEADER).await?;
             tokio::time::sleep(std::time::Duration::from_millis(od as u64)).await;
-            peer.send_frame(0, &Peer::open_body("verif-peer", None, None, None), &[]).await?;
+            peer.send_frame(0, &Peer::open_body("verif-peer", None, None, c.peer_idle), &[]).await?;
             let h = peer.expect_header().await?;
             if h != [0, 1, 0, 0] {
                 return Err(format!("listener sent protocol header {:?}", h));
@@ -459,7 +470,7 @@ fn run(ctx: &ShardCtx, rep: &mut Report) {
     MAX_SHRINK_ITERS.store(400, std::sync::atomic::Ordering::Relaxed);
     // positive control: a clean open/close must produce the reference trace in both roles
     for role in 0..2u8 {
-        let c = Case { role, header_delay: 0, open_delay: 0, script: vec![Ev::LocalClose { peer_err: false }], tokio_seed: 0, choices: vec![], pipe: PipeCfg { cap: 1 << 22, ..PipeCfg::default() } };
+        let c = Case { role, header_delay: 0, open_delay: 0, script: vec![Ev::LocalClose { peer_err: false }], tokio_seed: 0, choices: vec![], pipe: PipeCfg { cap: 1 << 22, ..PipeCfg::default() }, peer_idle: None, close_answer_delay: 0, peer_ch0: 0 };
         if let Err(e) = run_case(&c) {
             rep.violations.push(Violation { variant: "lifecycle".into(), signature: "positive-control".into(), detail: format!("positive control (clean open/close, role {role}) failed: {e}"), case: serde_json::to_value(&c).unwrap() });
             return;
